@@ -188,6 +188,7 @@ class Ctx:
                 "trusted_base": ["rustc nightly MIR construction and Instance resolution", "/verif/driver serialiser", "/verif/sa rule engine", "reviewed tables inside the rules (each entry carries its reason)"],
                 "exhaustive": False,
                 "notes": self.notes,
+                "parameter_renames": sorted(set(r for pr in facts._loaded.values() for r in pr.param_renames)),
             },
             "assumptions": assumptions,
             "wall_s": round(time.time() - self.t0, 2),
